@@ -290,11 +290,12 @@ def _gen_variants(rng, gene, contig_seq, opts):
             if rb - ra < 40:
                 continue
             g = rng.randint(ra + 8, rb - 28)
-            if not clear(g - 2, g + 10 + opts.get("close_d", (1, 8))[1]):
+            if not clear(g - 6, g + 10 + opts.get("close_d", (1, 8))[1]):
                 continue
             d = rng.randint(*opts.get("close_d", (1, 8)))
-            x, y = rand_seq(rng, rng.randint(1, 3)), rand_seq(rng, rng.randint(1, 3))
-            k1, k2 = rng.randint(1, 3), rng.randint(1, 3)
+            x, y = rand_seq(rng, rng.randint(1, 4)), rand_seq(rng, rng.randint(1, 4))
+            k1, k2 = rng.randint(1, 4), rng.randint(1, 4)
+            off = rng.choice([0, 0, 1, 2, 3])  # substitution right next to the indel or a few bases away
 
             def ins_ok(gg, alt, left=None, right=None):
                 lf, rt = left or seq[gg], right or seq[gg + 1]
@@ -323,19 +324,33 @@ def _gen_variants(rng, gene, contig_seq, opts):
                 if ins_ok(g, x, left=sv["alt"]):
                     pair = [{"kind": "ins", "g": g, "ref": "", "alt": x}, sv]
             elif kind == "snp_after_ins":
-                sv = snp(g + 1)
-                if ins_ok(g, x, right=sv["alt"]):
+                sv = snp(g + 1 + off)
+                if ins_ok(g, x, right=sv["alt"] if off == 0 else None):
                     pair = [{"kind": "ins", "g": g, "ref": "", "alt": x}, sv]
             elif kind == "snp_before_del" and del_ok(g, k1):
-                sv = snp(g - 1)
-                if sv["alt"] != seq[g + k1 - 1]:
+                sv = snp(g - 1 - off)
+                if off or sv["alt"] != seq[g + k1 - 1]:
                     pair = [{"kind": "del", "g": g, "ref": "".join(seq[g: g + k1]), "alt": ""}, sv]
             elif kind == "snp_after_del" and del_ok(g, k1):
-                sv = snp(g + k1)
-                if sv["alt"] != seq[g]:
+                sv = snp(g + k1 + off)
+                if off or sv["alt"] != seq[g]:
                     pair = [{"kind": "del", "g": g, "ref": "".join(seq[g: g + k1]), "alt": ""}, sv]
             elif kind == "snp_snp":
                 pair = [snp(g), snp(g + rng.choice([1, 1, 2]))]
+            elif kind == "snp_under_del":
+                # a substitution on a base that another allele deletes (not its first base): trans only
+                kk = rng.randint(2, 4)
+                if del_ok(g, kk):
+                    pair = [{"kind": "del", "g": g, "ref": "".join(seq[g: g + kk]), "alt": ""}, snp(g + rng.randint(1, kk - 1))]
+                    gene["no_cis"] = True
+            elif kind == "mnp_inner_snp":
+                # a multi-nucleotide substitution whose last base change is also catalogued on its own
+                kk = rng.choice([2, 3, 3])
+                ref_ = "".join(seq[g: g + kk])
+                alt_ = "".join(rng.choice([c for c in "ACGT" if c != r_]) for r_ in ref_)
+                pair = [{"kind": "mnp", "g": g, "ref": ref_, "alt": alt_},
+                        {"kind": "snp", "g": g + kk - 1, "ref": ref_[-1], "alt": alt_[-1]}]
+                gene["no_cis"] = True
             if not pair:
                 continue
             ids = []
@@ -437,7 +452,18 @@ def _gen_alleles(rng, gene, opts):
         if len(free) >= 2:
             alleles.append({"name": f"{num}.001", "kind": "normal", "vars": free[:2]})
             num += 1
-    if cis:
+    if cis and gene.get("no_cis"):
+        # the two cannot sit on one haplotype: each gets an allele of its own
+        a, b = cis
+        alleles.append({"name": f"{num}.001", "kind": "normal", "vars": [a]})
+        num += 1
+        if vs[b]["func"]:
+            alleles.append({"name": f"{num}.001", "kind": "normal", "vars": [b]})
+            num += 1
+        else:
+            n1 = sum(1 for x in alleles if x["name"].startswith("1."))
+            alleles.append({"name": f"1.{n1 + 1:03d}", "kind": "normal", "vars": [b]})
+    elif cis:
         a, b = cis
         if vs[b]["func"]:
             alleles.append({"name": f"{num}.001", "kind": "normal", "vars": [a, b]})
